@@ -295,6 +295,11 @@ func (k Keeper) RemoveExpiredPurchasesAndDistributeFees(ctx sdk.Context) {
 	// Distribute service fees.
 	totalCollateral := k.GetTotalCollateral(ctx)
 	providers := k.GetAllProviders(ctx)
+	if !totalCollateral.IsPositive() {
+		// Nobody has collateral in the pool: there is no share to compute and
+		// the fees stay in the remaining service fees.
+		providers = nil
+	}
 	for _, provider := range providers {
 		providerAddr, err := sdk.AccAddressFromBech32(provider.Address)
 		if err != nil {
